@@ -289,7 +289,8 @@ pub fn run_cases<C, W, S>(
                         let mut best_case = case.clone();
                         let mut best = r.clone();
                         let mut execs = 0u32;
-                        'outer: while execs < cfg.max_shrink_execs && tree.simplify() {
+                        let shrink_started = Instant::now();
+                        'outer: while execs < cfg.max_shrink_execs && shrink_started.elapsed().as_secs() < 90 && tree.simplify() {
                             loop {
                                 let c = tree.current();
                                 let rr = exec(&mut w, &c);
